@@ -57,6 +57,35 @@ def dp(a, b, window, pen):
     return D[r][c], N[r][c]
 
 
+def opt_path(a, b, window, pen):
+    """the optimal warping path (list of index pairs) when it is unique, else None"""
+    r, c = len(a), len(b)
+    w = max(r, c) if window is None else window
+    pen2 = pen * pen if pen else 0.0
+    D = [[INF] * (c + 1) for _ in range(r + 1)]
+    D[0][0] = 0.0
+    for i in range(r):
+        for j in range(max(0, i - max(0, r - c) - w + 1), min(c, i + max(0, c - r) + w)):
+            m = min(D[i][j], D[i][j + 1] + pen2, D[i + 1][j] + pen2)
+            if m != INF:
+                D[i + 1][j + 1] = cost(a[i], b[j]) + m
+    if D[r][c] == INF:
+        return None
+    i, j, path = r, c, []
+    while i > 0 and j > 0:
+        path.append((i - 1, j - 1))
+        cands = [(D[i - 1][j - 1], (i - 1, j - 1)), (D[i - 1][j] + pen2, (i - 1, j)), (D[i][j - 1] + pen2, (i, j - 1))]
+        m = min(x for x, _ in cands)
+        best = [p for x, p in cands if abs(x - m) <= 1e-12 * max(1.0, abs(m))]
+        if len(best) != 1:
+            return None
+        i, j = best[0]
+    if (i, j) != (0, 0):
+        return None
+    path.reverse()
+    return path
+
+
 def path_cost(a, b, path, pen):
     pen2 = pen * pen if pen else 0.0
     acc = None
@@ -178,6 +207,20 @@ for it in range(n):
                 err = 'raised %s with modified unselected series' % type(e).__name__
         if err:
             report(route, lst, c, mask, opts, err, result=out.tolist())
+    # C engine against first principles: the mean along the optimal paths, where every one of them is unique
+    if 'c' in res and res['c'].shape == np.asarray(c).shape:
+        paths_ = [opt_path(c, s, opts.get('window'), opts.get('penalty')) for s in sel]
+        if all(p_ is not None for p_ in paths_):
+            assoc_ = [[] for _ in range(len(c))]
+            for s, p_ in zip(sel, paths_):
+                for i_, j_ in p_:
+                    assoc_[i_].append(np.asarray(s[j_], dtype=float))
+            for i_, vals in enumerate(assoc_):
+                if vals and not np.allclose(res['c'][i_], np.mean(vals, axis=0), rtol=1e-9, atol=1e-12):
+                    report('c', lst, c, mask, opts, 'C engine: position %d holds %r, the mean of the points aligned by the (unique) '
+                           'optimal paths is %r' % (i_, np.asarray(res['c'][i_]).tolist(), np.mean(vals, axis=0).tolist()),
+                           container=container)
+                    break
     if 'py' in res and 'c' in res and unique and res['py'].shape == res['c'].shape:
         if not np.allclose(res['py'], res['c'], rtol=1e-9, atol=1e-12):
             report('engines', lst, c, mask, opts, 'C and Python results differ although all optimal paths are unique',
